@@ -33,9 +33,9 @@ def body(ck, F, cfg):
     got = [(n, t) for n, t, _ in wire.struct_fields(F, "inner_product_proof::InnerProductProof")]
     ck.require(got == wire.IPP_FIELDS, "R11.2", "InnerProductProof:layout", f"field order/types of InnerProductProof differ from the encoding layout (L list, R list, a, b): {got}")
     allf = wire.PROOF_FIELDS[:-1] + wire.IPP_FIELDS
-    pts = sum(1 for _, t in allf if t == "G")
+    pts = sum(1 for _, t in allf if t == "$T")
     scs = sum(1 for _, t in allf if "ScalarField" in t)
-    vecs = sum(1 for _, t in allf if t.startswith("std::vec::Vec<G>"))
+    vecs = sum(1 for _, t in allf if t.startswith("std::vec::Vec<$T>"))
     ck.require((pts, scs, vecs) == (11, 5, 2), "R11.2", "size-law-shape", f"size law 11 points + 5 scalars + 2 counted point lists is read off the types; found {(pts, scs, vecs)}")
     ck.sample({"layout": [n for n, _ in allf], "points": pts, "scalars": scs, "lists": vecs})
     # k = log2(padded gate count): the list length the verifier accepts, and the prover's round count
